@@ -165,6 +165,26 @@ def dup_rule_grammar(rnd):
     return g
 
 
+def big_grammar(rnd, nt=None, nu=None, square=False):
+    """More than 256 productions: list : list item | item ; item : T_i U_j for every pair (square: T_i T_j over one pool of
+    17 terminals).  Rule numbers beyond one byte, many single-item states that differ only in the rule number."""
+    if square:
+        nt = nt or 17
+        terms = [dict(name='T%d' % i, lit=None, tag=TAGS[i % 3], num=None, declared=True) for i in range(nt)]
+        pairs = [(i, j) for i in range(nt) for j in range(nt)]
+    else:
+        nt = nt or 19
+        nu = nu or 14
+        terms = [dict(name='T%d' % i, lit=None, tag=TAGS[i % 3], num=None, declared=True) for i in range(nt)] + \
+                [dict(name='U%d' % j, lit=None, tag=TAGS[j % 3], num=None, declared=True) for j in range(nu)]
+        pairs = [(i, nt + j) for i in range(nt) for j in range(nu)]
+    nonterms = [dict(name='list', tag='v0'), dict(name='item', tag='v1')]
+    rules = [dict(lhs=0, rhs=[('n', 0), ('n', 1)], prec=None, c=1, coef=[1, 3]), dict(lhs=0, rhs=[('n', 1)], prec=None, c=2, coef=[1])]
+    for k, (a, b) in enumerate(pairs):
+        rules.append(dict(lhs=1, rhs=[('t', a), ('t', b)], prec=None, c=k % 97, coef=[1 + (a % 5), 1 + (b % 7)]))
+    return dict(terms=terms, nonterms=nonterms, precs=[], rules=rules, start=0, big=True)
+
+
 def long_rule_grammar(rnd):
     """One rule with 10-13 right-hand-side symbols whose action reads every $n (two-digit $n), next to a short one."""
     k = rnd.randint(10, 13)
